@@ -26,6 +26,7 @@ DTYPES = ("float64", "float32", "int64", "int32")
 UNSUPPORTED_EMPTY = set()
 GAS_FUNCS = {"Fluid.gas_FVF", "Fluid.gas_viscosity"}
 ABOVE_ONLY = {"oil_compressibility_undersat_Spivey"}
+ZERO_OK = {"b_o_Standing", "solution_gor_Standing", "Fluid.oil_FVF"}   # finite at p = 0 in the scalar form (the clamp to 15 psia of the other lists does not apply)
 FUNCS = ("b_o_Standing", "solution_gor_Standing", "oil_compressibility_undersat_Spivey", "b_water_McCain", "b_water_McCain_dp", "compressibility_water_McCain",
          "density_water_McCain", "viscosity_water_McCain", "Fluid.oil_FVF", "Fluid.oil_viscosity", "Fluid.water_FVF", "Fluid.water_viscosity", "Fluid.gas_FVF", "Fluid.gas_viscosity")
 
@@ -164,6 +165,9 @@ def value_lists(rng, name, P, dtype):
             assert any(v == (pb if dtype == "float64" else float(np.float32(pb))) for v in n_list)
     lists = [("full", n_list), ("::2", n_list), ("::-1", n_list), ("1::3", n_list), ("full", [float(x) for x in conv(grid)] if name not in ABOVE_ONLY else n_list[::-1])]
     lists += [("full", s) for s in singles] + [("::-1", singles[0]), ("full", []), ("::2", [])]
+    if name in ZERO_OK:
+        # a table's pressure column starts at 0 psia: the scalar call is finite there, so must be the array element
+        lists.append(("full", [0.0] + [float(x) for x in conv(grid)]))
     return lists
 
 
